@@ -211,6 +211,10 @@ const LIST_A: &[&str] = &[
     "||r.example.com^$redirect=noop.js", "||c.example.com^$csp=script-src 'none'", "*$image,domain=a.com|b.com",
     "a.com##.ad", "a.com#@#.ok", "##.generic", "###gid > .x", "a.com##.s:style(color: red)", "b.*##+js(sc, 1)", "@@||g.example.com^$generichide",
 ];
+// rules whose stored strings sit at the edge of what the matchers assume: one-character and non-ASCII
+// patterns, a one-label hostname anchor, complete regexes.  None of them matches a battery request, so
+// every one of them is evaluated by every query (a matching rule would end the bucket scan early).
+const LIST_C: &[&str] = &["é*y/", "|x|", "é", "||a^", "/é[0-9]/", "|é^", "qq*", "a.com##é", "é.com##.c", "é.com#@#.c"];
 const LIST_B: &[&str] = &["||other.example.org^", "/zzz^$tag=t1", "b.com##.bb", "||ads.example.com^$important"];
 
 fn battery(e: &Engine) -> Result<String, String> {
@@ -265,6 +269,11 @@ pub fn record_c10(out: &str, seed: u64, thorough: bool) {
     let mut w = LineWriter::create(out);
     let img_a = engine_of(LIST_A, &[]).serialize_raw().unwrap();
     let img_b = engine_of(LIST_B, &[]).serialize_raw().unwrap();
+    let img_c = engine_of(LIST_C, &[]).serialize_raw().unwrap();
+    let mut ec = Engine::new(true);
+    ec.use_tags(&["t1"]);
+    ec.deserialize(&img_c).unwrap();
+    let dc = battery(&ec).unwrap();
     // what a valid load of A / B into an engine with tags {t1} answers
     let mut ea = Engine::new(true);
     ea.use_tags(&["t1"]);
@@ -274,7 +283,7 @@ pub fn record_c10(out: &str, seed: u64, thorough: bool) {
     eb.use_tags(&["t1"]);
     eb.deserialize(&img_b).unwrap();
     let db = battery(&eb).unwrap();
-    w.put(&json!({"ev": "images", "A": da, "B": db, "lenA": img_a.len(), "lenB": img_b.len()}));
+    w.put(&json!({"ev": "images", "A": da, "B": db, "C": dc, "lenA": img_a.len(), "lenB": img_b.len(), "lenC": img_c.len()}));
 
     let mut target = Engine::new(true);
     target.use_tags(&["t1"]);
@@ -284,11 +293,11 @@ pub fn record_c10(out: &str, seed: u64, thorough: bool) {
 
     // the fault enumeration
     let mut faults: Vec<(String, Vec<u8>)> = vec![];
-    for (name, img) in [("A", &img_a), ("B", &img_b)] {
+    for (name, img) in [("A", &img_a), ("B", &img_b), ("C", &img_c)] {
         for n in 0..img.len() {
             faults.push((format!("{}:prefix:{}", name, n), img[..n].to_vec()));
         }
-        let stride = if thorough || name == "A" { 1 } else { 3 };
+        let stride = if thorough || name != "B" { 1 } else { 3 };
         for i in (0..img.len()).step_by(stride) {
             for bit in 0..8 {
                 let mut b = img.to_vec();
@@ -369,7 +378,7 @@ pub fn record_c10(out: &str, seed: u64, thorough: bool) {
         if result == "ok" {
             accepted += 1;
         }
-        let same_as = if bytes == &img_a { "A" } else if bytes == &img_b { "B" } else { "" };
+        let same_as = if bytes == &img_a { "A" } else if bytes == &img_b { "B" } else if bytes == &img_c { "C" } else { "" };
         w.put(&json!({"ev": "load", "img": same_as, "fault": name, "len": bytes.len(), "result": result, "peak": peak}));
         nontrivial += 1;
         let d = battery(&target).unwrap_or_else(|p| format!("panic:{}", p));
